@@ -7,7 +7,8 @@
 (***************************************************************************)
 EXTENDS Binder, Json
 
-CONSTANTS MaxParams, MaxArgs, Rich, Overloads, Emit
+CONSTANTS MaxParams, MaxArgs, Rich, Overloads, Emit,
+          AnyRet    \* the declarations' return type is Untyped (the as-is binder then skips its too-many test)
 
 cInt == [tt |-> "INT", c |-> "Integer"]
 cStr == [tt |-> "STRING", c |-> "String"]
@@ -53,7 +54,7 @@ MCInit ==
 MCNext == UNCHANGED mcvars
 MCSpec == MCInit /\ [][MCNext]_mcvars
 
-AsIs == AsIsCall(decls, call, FALSE)
+AsIs == AsIsCall(decls, call, AnyRet)
 
 \* ---- what TLC checks on the model ------------------------------------------
 \* the two judgements never contradict each other
@@ -64,9 +65,9 @@ Sound    == MustFail(decls, call) => AsIs.res # "ok"
 Complete == MustPass(decls, call) => AsIs.res = "ok"
 \* C14 on the as-is binder: reordering the keyword arguments changes nothing
 Reversed(A) == PosArgs(A) \o [i \in 1..Len(KeyArgs(A)) |-> KeyArgs(A)[Len(KeyArgs(A)) + 1 - i]]
-KwOrderIrrelevant == AsIsCall(decls, Reversed(call), FALSE).res = AsIs.res
+KwOrderIrrelevant == AsIsCall(decls, Reversed(call), AnyRet).res = AsIs.res
 
-Case == [d |-> decls, c |-> call, asis |-> AsIs.res, path |-> AsIs.path,
+Case == [d |-> decls, c |-> call, anyret |-> AnyRet, asis |-> AsIs.res, path |-> AsIs.path,
          mp |-> MustPass(decls, call), mf |-> MustFail(decls, call)]
 EmitInv == Emit => PrintT(ToJson(Case))
 =============================================================================
